@@ -21,7 +21,7 @@ func init() {
 func genC23(r *sim.Rand, tier string) *sim.Case {
 	c := &sim.Case{Cfg: genCluster(r)}
 	nreg := int(c.Cfg["regions"])
-	nw, nr := r.Pick(1, 2, 3), r.Pick(2, 3, 4)
+	nw, nr := r.Pick(1, 2, 3), r.Pick(3, 4, 6)
 	kpr := r.Pick(1, 1, 2) // keys per region
 	c.Cfg["writers"], c.Cfg["readers"], c.Cfg["keys_per_region"] = int64(nw), int64(nr), int64(kpr)
 	// one_writer_per_key=1: key k is only written by writer k mod writers.
@@ -71,21 +71,22 @@ const (
 )
 
 type wtxn struct {
-	id         int
-	writer     int
-	key        int
-	ri         int
-	val        string
-	startTs    uint64
-	commitTs   uint64
-	phase      int
-	attempts   int
-	invokeStep int64
-	commitSent bool
-	acked      bool
-	ackStep    int64
-	failed     bool
-	observed   bool
+	id          int
+	writer      int
+	key         int
+	ri          int
+	val         string
+	startTs     uint64
+	commitTs    uint64
+	phase       int
+	attempts    int
+	invokeStep  int64
+	commitSent  bool
+	commitTries int
+	acked       bool
+	ackStep     int64
+	failed      bool
+	observed    bool
 }
 
 type readRec struct {
@@ -118,8 +119,8 @@ type c23 struct {
 	rollback bool
 	// rolledBack[key] lists the start versions for which a BatchRollback was sent.
 	rolledBack map[int][]uint64
-	acks     int
-	values   int
+	acks       int
+	values     int
 }
 
 func (h *c23) keyName(k int) []byte { return regionKey(h.w, k/h.kpr, k%h.kpr) }
@@ -178,6 +179,7 @@ func (h *c23) drive(tx *wtxn) {
 			tx.commitTs = h.next()
 		}
 		tx.commitSent = true
+		tx.commitTries++
 		r = &pb.Request{CmdType: pb.CmdType_CMD_COMMIT, Cmd: &pb.Request_Commit{Commit: &pb.CommitRequest{
 			Keys: [][]byte{key}, StartVersion: tx.startTs, CommitVersion: tx.commitTs}}}
 	default:
@@ -254,9 +256,12 @@ func (h *c23) drive(tx *wtxn) {
 			}
 			h.finish(tx)
 		case tx.phase == phCommit:
-			// A definite commit failure (lock gone): the write did not and will not happen.
+			// A key error on the very first commit attempt is a definite failure (lock gone: the write did
+			// not and will not happen). After an attempt with unknown outcome it proves nothing: the first
+			// attempt may have applied and another writer may hold the key's lock by now (Commit answers
+			// "locked" without looking for an existing commit record), so the outcome stays unknown.
 			w.res.Probes["commit_key_error"]++
-			tx.failed = true
+			tx.failed = tx.commitTries == 1
 			h.finish(tx)
 		default:
 			h.finish(tx)
@@ -359,7 +364,7 @@ func (h *c23) read(ri, key, target int, final bool) {
 				w.res.Violate(w.opIdx, "uncommitted_read", nil, "read of key %s at store %d returned %q whose transaction never sent a commit", h.keyName(key), n.id, rec.val)
 				return
 			case tx.failed:
-				w.res.Violate(w.opIdx, "aborted_read", nil, "read of key %s at store %d returned %q whose commit was definitely rejected", h.keyName(key), n.id, rec.val)
+				w.res.Violate(w.opIdx, "aborted_read", map[string]string{"rollbacks_in_workload": yesNo(h.rollback)}, "read of key %s at store %d returned %q whose commit was definitely rejected", h.keyName(key), n.id, rec.val)
 				return
 			}
 			tx.observed = true
